@@ -19,7 +19,9 @@ SPEC = {
                 {"pkg": "internal/plugin", "test": "TestVerifNetnsWildcards", "arch386": []},
                 # the system layer under the wildcards ("for any system state: interface addresses, loopback routes"): the real
                 # rtnetlink decoding of addresses and routes of every type, protocol and scope
-                {"pkg": "internal/system", "test": "TestVerifC13Addresser", "corr_module": "Corr.C13sys"}],
+                {"pkg": "internal/system", "test": "TestVerifC13Addresser", "corr_module": "Corr.C13sys"},
+                # ... and the forwarding state behind the router lifetime: the real State against real sysctl files
+                {"pkg": "internal/system", "test": "TestVerifState", "newgo": True, "timeout": 600}],
     "rule": "random TOML interface: every header key absent / at a limit / random (fractional max_interval, default_lifetime 0 / auto / max / 9000s, "
             "timers 0..1h with sub-ms parts), 0..3 stanzas of each kind (prefix static or ::/64, route static with lengths not multiple of 8 or ::/0, "
             "rdnss static / :: / empty, dnssl, pref64 default / given / invalid), mtu, source_lla, captive_portal, deprecated flags with boundary lifetimes; "
